@@ -46,9 +46,14 @@ def _time_ordered_source(v):
         by = t[3][0] if t[3] else dict(t[4]).get('by')
         asc = dict(t[4]).get('ascending', T.TRUE)
         src = t[1]
-        while tag(src) == 'mask' or (tag(src) == 'rows'):
-            src = src[1]
-        if by in (C('dt'), ('list', (C('dt'),))) and asc == T.TRUE and T.root(src) == DATA:
+        if by in (C('dt'), ('list', (C('dt'),))) and asc == T.TRUE and tag(src) in ('mask', 'rows', 'col', 'cols') \
+                and T.root(src) == DATA:
+            return False, ("a selection that is sorted by 'dt' on its own: hits with equal time stamps (several "
+                           "ceilometers, multi-hit measurements) are then ordered differently from one selection to "
+                           "another (the sort is not stable), so the look-back cuts through ties differently when a "
+                           "separation is decided and when the base is reported; every site must select from the "
+                           "whole chunk data sorted by 'dt'")
+        if by in (C('dt'), ('list', (C('dt'),))) and asc == T.TRUE and src == DATA:
             return True, "selected from the chunk data sorted by ascending 'dt'"
         return False, f'sorted by {T.show(by)} (ascending={T.show(asc)})'
     return False, f'taken from {T.show(t, maxlen=120)} in whatever order the rows of the input frame have'
@@ -86,7 +91,11 @@ def same_selection_at_decision_time(ctx, rule='C06-R2'):
     rep_member = T.mk_cmp('==', ('col', DATA, 'group_id'), ('lv', rep.loops[-1], 'elem'))
     rep_sel = _selection_of(rep.value)
     if rep_sel is None:
-        raise AnalysisError(rule, 'report-time base height is not calc_base_height(data[sel].height)')
+        ctx.violation(rule, m.qname, m.node.name, m.loc(),
+                      f'the reported group base is {T.show(rep.value, maxlen=160)}: not the base-height routine '
+                      'applied to a row selection of the time-sorted chunk data, so it cannot be compared with the '
+                      'bases used when groups are merged', instance='report-time base = calc_base_height(sorted data[sel])')
+        return
     rep_norm = T.subst(rep_sel, {rep_member: ('MEMBER',)})
     k = p.klass('ampycloud.data.CeiloChunk', rule)
     mg = p.find_method(k, '_merge_close_groups')
